@@ -391,4 +391,166 @@ theorem backtrack_pj_sound (σ : Leaves) (st : Store) (pref : Engine) (hpk : pre
                   refine ⟨fun hd => (by cases hd), fun _ => ?_⟩
                   exact btj_step σ f cur target u r hwft htrt hcur hF hopc f hfirst B hfin
 
+/-! ### `apply` around `backtrack_unary`: `_begin_apply`, and the refusal of a cross-engine join -/
+
+theorem Cols.seteq_refl (c : Cols) : c.seteq c = true := (Cols.seteq_iff c c).mpr (fun _ => Iff.rfl)
+
+/-- What `PartialJoin._begin_apply` guarantees about its replacement beyond `pjBeginApply_ok`. -/
+theorem pjBeginApply_req (p : PJoin) (x : Rel) (pref : Option Engine) (p' : PJoin) (e : Engine)
+    (h : p.beginApply x pref = .ok (p', e)) :
+    p'.columnsRequired.subset x.columns = true ∧ p'.join.resolved = true := by
+  unfold PJoin.beginApply at h
+  simp only at h
+  by_cases hres : p.join.resolved = true
+  · simp only [hres, Bool.not_true, Bool.false_eq_true, if_false] at h
+    split at h
+    · cases h
+    · rename_i hc
+      injection h with h; injection h with h1 _
+      subst h1
+      exact ⟨by simpa using hc, hres⟩
+  · have hres' : p.join.resolved = false := by simpa using hres
+    simp only [hres', Bool.not_false, if_true] at h
+    cases hc : p.join.appliedCommonColumns p.fixed.columns x.columns with
+    | error e => simp [hc] at h
+    | ok common =>
+      simp only [hc] at h
+      split at h
+      · cases h
+      · rename_i hcc
+        injection h with h; injection h with h1 _
+        subst h1
+        exact ⟨by simpa using hcc, by simp [JoinOp.resolved, Cols.seteq_refl]⟩
+
+theorem joinBeginApply_cross (j : JoinOp) (l r : Rel) (op' : BOp) (hne : l.engine ≠ r.engine)
+    (h : joinBeginApply j l r = .ok op') :
+    ∃ op, op' = .join op ∧ op.pred = j.pred ∧
+      ((j.pred.asTrivial == some true) = true → l.isJoinIdentity = false ∧ r.isJoinIdentity = false) := by
+  have hne' : (l.engine != r.engine) = true := by simpa using hne
+  unfold joinBeginApply at h
+  simp only [bind, Except.bind, pure, Except.pure, throw, throwThe, MonadExceptOf.throw, hne', Bool.true_and] at h
+  repeat' (split at h)
+  all_goals first
+    | (cases h; done)
+    | (exfalso; simp_all; done)
+    | (injection h with h; subst h; exact ⟨_, rfl, rfl, by simp_all⟩)
+
+/-- A join of relations of different engines is refused by `Join.apply`. -/
+theorem binaryApply_join_cross_engine (st : Store) (fuel : Nat) (j : JoinOp) (l r : Rel) (hne : l.engine ≠ r.engine)
+    (res : BRes) : binaryApply st fuel (.join j) l r ≠ .ok res := by
+  intro h
+  cases fuel with
+  | zero => rw [binaryApply] at h; cases h
+  | succ fuel =>
+    rw [binaryApply] at h
+    simp only [bind, Except.bind] at h
+    cases hb : joinBeginApply j l r with
+    | error e => simp [hb] at h
+    | ok op' =>
+      simp only [hb] at h
+      obtain ⟨op, hop, hpred, htriv⟩ := joinBeginApply_cross j l r op' hne hb
+      subst hop
+      have hne' : (l.engine != r.engine) = true := by simpa using hne
+      cases hk : l.engine.kind with
+      | iter =>
+        simp only [hk, binaryFinishApply, hpred] at h
+        by_cases ht : (j.pred.asTrivial == some true) = true
+        · obtain ⟨h1, h2⟩ := htriv ht
+          simp [ht, h1, h2, hne'] at h
+        · simp [ht, hne'] at h
+      | sql =>
+        simp only [hk] at h
+        cases fuel with
+        | zero => rw [appendBinarySql] at h; cases h
+        | succ fuel =>
+          rw [appendBinarySql] at h
+          simp [bind, Except.bind, throw, throwThe, MonadExceptOf.throw, hne'] at h
+
+theorem pjFinish_cross_engine (st : Store) (fuel : Nat) (p : PJoin) (t : Rel) (hne : p.fixed.engine ≠ t.engine)
+    (res : Res) : pjFinishApply st fuel p t ≠ .ok res := by
+  intro h
+  cases fuel with
+  | zero => rw [pjFinishApply] at h; cases h
+  | succ fuel =>
+    rw [pjFinishApply] at h
+    simp only [bind, Except.bind] at h
+    cases hs : p.fixedIsLhs with
+    | true =>
+      simp only [hs, if_true] at h
+      cases hb : binaryApply st fuel (.join p.join) p.fixed t with
+      | error e => simp [hb] at h
+      | ok r => exact binaryApply_join_cross_engine st fuel p.join p.fixed t hne r hb
+    | false =>
+      simp only [hs, Bool.false_eq_true, if_false] at h
+      cases hb : binaryApply st fuel (.join p.join) t p.fixed with
+      | error e => simp [hb] at h
+      | ok r => exact binaryApply_join_cross_engine st fuel p.join t p.fixed (fun h => hne h.symm) r hb
+
+theorem appendUnary_pj_cross_engine (st : Store) (fuel : Nat) (p : PJoin) (t : Rel) (hk : t.engine.kind = .iter)
+    (hne : p.fixed.engine ≠ t.engine) (res : Res) : appendUnary st fuel (.pj p) t ≠ .ok res := by
+  intro h
+  cases fuel with
+  | zero => rw [appendUnary] at h; cases h
+  | succ fuel =>
+    rw [appendUnary] at h
+    simp only [hk] at h
+    exact pjFinish_cross_engine st fuel p t hne res h
+
+/-- **`relation.join(fixed)` from an iteration-engine relation, fixed relation in a database** (default options:
+the preferred engine is the fixed relation's, back-tracking on, no transfer): whenever the call succeeds, the join
+was back-tracked into the database, and the result is well-formed, lives in the target's engine and has the columns
+and - as a multiset - the rows of the join (on the common columns `_begin_apply` resolved) applied at the root. -/
+theorem applyOp_pj_backtracked (σ : Leaves) (st : Store) (fuel : Nat) (p : PJoin) (t : Rel) (o : Opts)
+    (hpref : o.pref = none) (hbt : o.backtrack = true) (htr : o.transfer = false)
+    (hkt : t.engine.kind = .iter) (hks : p.fixed.engine.kind = .sql)
+    (gF : Good NodeInv.triv σ p.fixed)
+    (hfix0 : p.join.resolved = true → p.join.minCols.subset p.fixed.columns = true)
+    (hwf : t.WF) (htrt : t.Truthful σ) (hpo : t.prefTargetsGood NodeInv.triv σ p.fixed.engine)
+    (hnp : t.spineNoPayload st)
+    (res : Res) (h : applyOp st fuel (.pj p) t o = .ok res) :
+    ∃ p', p.beginApply t none = .ok (p', p.fixed.engine) ∧ BTJ σ p' t (res.get t) := by
+  cases fuel with
+  | zero => rw [applyOp] at h; cases h
+  | succ fuel =>
+    rw [applyOp] at h
+    simp only [AnyOp.beginApply, bind, Except.bind, pure, Except.pure, Except.map, hpref] at h
+    cases hb : p.beginApply t none with
+    | error e => simp [hb] at h
+    | ok v =>
+      obtain ⟨p', e⟩ := v
+      obtain ⟨f1, _, _, f4, f5, _, _, _⟩ := pjBeginApply_ok p t none p' e hfix0 hb
+      obtain ⟨hreq, hres'⟩ := pjBeginApply_req p t none p' e hb
+      have he : e = p.fixed.engine := f4
+      subst he
+      have hne : p.fixed.engine ≠ t.engine := fun hh => by rw [hh, hkt] at hks; cases hks
+      have hne' : (p.fixed.engine != t.engine) = true := by simpa using hne
+      simp only [hb, hne', hbt, htr, if_true, Bool.false_eq_true, if_false] at h
+      cases hbk : backtrack st fuel (.pj p') t p.fixed.engine with
+      | error e => simp [hbk] at h
+      | ok v =>
+        obtain ⟨up, d⟩ := v
+        simp only [hbk] at h
+        obtain ⟨ih1, ih2⟩ := backtrack_pj_sound σ st p.fixed.engine hks p' (f1 ▸ gF) (by rw [f1]) hres'
+          (by rw [f1]; exact f5) fuel t up d hwf htrt hreq hpo hnp hbk
+        cases d with
+        | false =>
+          have := ih1 rfl
+          subst this
+          exfalso
+          simp only [Bool.not_false, if_true, Res.get] at h
+          have hx : ∀ r, appendUnary st fuel (.pj p') t ≠ .ok r :=
+            fun r => appendUnary_pj_cross_engine st fuel p' t hkt (by rw [f1]; exact hne) r
+          cases happ : appendUnary st fuel (.pj p') t with
+          | ok r => exact hx r happ
+          | error e =>
+            simp only [happ] at h
+            split at h
+            · simp [throw, throwThe, MonadExceptOf.throw] at h
+            · cases h
+        | true =>
+          simp only [Bool.not_true, Bool.false_eq_true, if_false] at h
+          injection h with h
+          subst h
+          exact ⟨p', rfl, ih2 rfl⟩
+
 end DafRel
